@@ -15,7 +15,7 @@ search:  every tree is judged against interp_spec (dirfile-format.5); a disagree
 
 Tree grammar (driver input, one tree per line):  <n> line*n   with
   E <n> | N <0|1> | O =<digits> | P <n> | V <n> | R =<code> | S =<ns> | H =<name>
-  FR =<name> <legacy 0|1> | FB =<name> =<input> | A =<name> =<target>
+  FR =<name> <legacy 0|1> | FB =<name> =<input> | FL =<name> =<input> =<table> | A =<name> =<target>
   I =<dir/dir> =<prefix token> =<suffix> <n> line*n
 """
 import sys, os, json, hashlib, shutil
@@ -46,6 +46,8 @@ def ser_line(l):
         return "FR =%s %d" % (l[1], 1 if l[2] else 0)
     if k in ("FB", "A"):
         return "%s =%s =%s" % (k, l[1], l[2])
+    if k == "FL":
+        return "FL =%s =%s =%s" % (l[1], l[2], l[3])
     if k == "I":
         return "I =%s =%s =%s %d %s" % ("/".join(l[1]), l[2], l[3], len(l[4]), " ".join(ser_line(x) for x in l[4]))
     raise ValueError(k)
@@ -72,11 +74,50 @@ def unrepresentable(t):
                     null = True
                 n2, o2 = walk(l[4])
                 null, old = null or n2, old or o2
-            elif l[0] in ("R", "S", "H", "FR", "FB", "A") and "" in [x for x in l[1:] if isinstance(x, str)]:
+            elif l[0] in ("R", "S", "H", "FR", "FB", "FL", "A") and "" in [x for x in l[1:] if isinstance(x, str)]:
                 null = True
         return null, old
     n, o = walk(t)
     return n and o
+
+
+DATA = bytes((k * 7 + 3) & 0xff for k in range(32))      # content of every RAW data file
+GFRAME = 12                                              # the frame the harness reads
+
+
+def add_data_lines(b):
+    """what gd_getdata64(field, frame 12, 1 sample, GD_UINT16) must return for every RAW field of a
+    raw-readable fragment, computed from the per-fragment settings of a model/spec block"""
+    if b["status"] != "OK":
+        return
+    fr = {}
+    for f in b["F"]:
+        kv = dict(x.split("=", 1) for x in f.split()[2:])
+        fr[f.split()[1]] = kv
+    out = []
+    for e in sorted(b["E"]):
+        p = e.split()
+        kv = dict(x.split("=", 1) for x in p[2:])
+        if kv.get("kind") != "R":
+            continue
+        name = p[1][1:]
+        f = fr.get(kv["frag"])
+        if f is None or f["enc"] not in ("0", "1"):
+            continue
+        if name.startswith(".") or "/" in name or (len(name) > 2 and name[-2] == "." and name[-1] in "rimaz"):
+            continue
+        ty = int(kv["ty"])
+        idx = GFRAME - int(f["off"])
+        if idx < 0:
+            out.append("G =%s n=1 v=0" % name)
+        elif (idx + 1) * ty > len(DATA):
+            out.append("G =%s n=0 v=0" % name)
+        elif ty == 1:
+            out.append("G =%s n=1 v=%x" % (name, DATA[idx]))
+        else:
+            lo, hi = DATA[2 * idx], DATA[2 * idx + 1]
+            out.append("G =%s n=1 v=%x" % (name, (lo << 8 | hi) if f["end"] == "1" else (hi << 8 | lo)))
+    b["G"] = out
 
 
 class Writer:
@@ -106,7 +147,15 @@ class Writer:
             elif k == "H":
                 out.append("/HIDDEN %s" % tok(l[1]))
             elif k == "FR":
-                out.append("%s RAW %s 1" % (tok(l[1]), "c" if l[2] else "UINT8"))
+                out.append("%s RAW %s 1" % (tok(l[1]), "c" if l[2] else "UINT16"))
+                if l[1] and "/" not in l[1]:
+                    with open(os.path.join(self.root, reldir, l[1]), "wb") as fh:
+                        fh.write(DATA)
+            elif k == "FL":
+                out.append("%s LINTERP %s %s" % (tok(l[1]), tok(l[2]), l[3]))
+                tp = os.path.join(self.root, reldir, l[3])
+                os.makedirs(os.path.dirname(tp), exist_ok=True)
+                open(tp, "w").write("0 0\n1 1\n")
             elif k == "FB":
                 out.append("%s BIT %s 0" % (tok(l[1]), tok(l[2])))
             elif k == "A":
@@ -234,7 +283,10 @@ class Gen:
                     inp = self.reftok(rng.choice(defs), cur)
                 else:
                     inp = rng.choice(["INDEX", "nosuch", "x.INDEX", "f1.r", ".f2", "f3.z"] if self.ge(10) else ["INDEX", "nosuch", "f1"])
-                lines.append(("FB", nm, inp))
+                if rng.random() < 0.3:
+                    lines.append(("FL", nm, inp, rng.choice(["t.lut", "tab/t1.lut", "d1/t2.lut", "d1/d2/t3.lut"])))
+                else:
+                    lines.append(("FB", nm, inp))
                 defs.append((nm, cur, "B"))
             elif r < 0.43:                                      # metafield
                 if clean and not self.ge(7):
@@ -430,7 +482,7 @@ def parse_blocks(text):
             if cur is not None and ln.endswith("CRASH"):
                 cur["status"] = "CRASH"      # crashed after printing part of a block
                 continue
-            cur = {"tag": ln.split()[0], "status": ln.split()[1], "F": [], "E": [], "REF": None, "X": [], "ATTR": None}
+            cur = {"tag": ln.split()[0], "status": ln.split()[1], "F": [], "E": [], "REF": None, "X": [], "ATTR": None, "G": []}
         elif ln == "END":
             if cur is not None:
                 blocks.append(cur)
@@ -447,25 +499,20 @@ def parse_blocks(text):
                 cur["REF"] = ln
             elif ln.startswith("X "):
                 cur["X"].append(ln)
+            elif ln.startswith("G "):
+                cur["G"].append(ln)
     return blocks
 
 
 def canon(b):
     if b["status"] != "OK":
         return b["status"]
-    return "\n".join(["OK"] + b["F"] + sorted(b["E"]) + [b["REF"] or "REF ?"])
+    return "\n".join(["OK"] + b["F"] + sorted(b["E"]) + [b["REF"] or "REF ?"] + sorted(b["G"]))
 
 
 def main():
     chk = vlib.Check("C09")
     rng = chk.rng
-    # findings staged in known_findings.d/C09.json count as listed (vlib reads known_findings.json only)
-    try:
-        staged = json.load(open(os.path.join(vlib.VERIF, "known_findings.d", "C09.json"))).get("findings", [])
-        have = {f["key"] for f in chk.known}
-        chk.known += [f for f in staged if f.get("property") == "C09" and f.get("status", "open") == "open" and f["key"] not in have]
-    except (OSError, ValueError):
-        pass
     V = vlib.VERIF
     # 1. translator
     rc, tout = vlib.sh("python3 %s/translate/tr_scope.py" % V)
@@ -532,6 +579,8 @@ def main():
     rc2, out2 = vlib.sh([drv], inp=("\n".join(ser_tree(t) for t in trees) + "\n").encode(), timeout=3000)
     IB = parse_blocks(out1)
     MB = parse_blocks(out2)
+    for b in MB:
+        add_data_lines(b)
     if rc1 != 0 or rc2 != 0 or len(IB) != len(trees) or len(MB) != 2 * len(trees):
         chk.violation("harness", "harness/driver failed rc=%d/%d blocks=%d/%d for %d trees: %s" % (
             rc1, rc2, len(IB), len(MB), len(trees), (out1[-300:] + out2[-600:])), {"kind": "harness"}, found=False)
